@@ -40,7 +40,9 @@ SharedFor(s, T) == {sp \in Sharing(s) : \E p \in TreeP(s, T) : s.aggs[p] \cap s.
 \*  (b) the unsuffixed group confined by in_tree: sharing providers from
 \*      outside that tree are usable only in "may";
 \*  (c) forbidden aggregates of the unsuffixed group are also applied to the
-\*      anchor's root in "must" (the code drops the anchor), not in "may".
+\*      anchor tree's root in "must" - for tree providers and for sharing
+\*      providers reached through that anchor alike (the code drops the
+\*      (provider, anchor) pair) - but not in "may".
 Usable(s, T, strict) ==
   IF strict THEN (TreeP(s, T) \ Sharing(s)) \cup SharedFor(s, T)
   ELSE TreeP(s, T) \cup SharedFor(s, T)
@@ -65,7 +67,7 @@ UnsuffixedAssignments(s, T, g, strict) ==
       memberOK(p) == \/ AnyOfOK(g.member_of, s.aggs[p])
                      \/ (p \in TreeP(s, T) /\ AnyOfOK(g.member_of, s.aggs[T]))
       notForbiddenAgg(p) == /\ g.forbidden_aggs \cap s.aggs[p] = {}
-                            /\ (strict => (p \in TreeP(s, T) => g.forbidden_aggs \cap s.aggs[T] = {}))
+                            /\ (strict => g.forbidden_aggs \cap s.aggs[T] = {})
       cand == [k \in DOMAIN g.res |->
                  {p \in U : /\ HasRoom(s, p, k, g.res[k])
                             /\ g.forbidden \cap s.traits[p] = {}
